@@ -223,6 +223,21 @@ def rs_states(case):
     return out, Ed
 
 
+APPROX_TOL = 1e-9
+
+
+def same(a, b, scale_of, approx):
+    """exact equality, or - for the generic-float family (case["approx"]) - equality up to APPROX_TOL relative to
+    the largest coefficient of the reference polynomial (rounding errors are ~1e-15, a defect is O(1))."""
+    if not approx:
+        return a == b
+    d = a - b
+    if d.is_zero():
+        return True
+    big = max([1.0] + [float(x.abs2()) ** 0.5 for x in scale_of])
+    return float(d.abs2()) ** 0.5 <= APPROX_TOL * big
+
+
 def fmt_poly(p):
     return [gq.enc_s(x) for x in p]
 
@@ -245,6 +260,7 @@ def eval_case(case, scales_list, want_detail=False):
         return res
     Ht = r["out"]["H_tilde"]
     Hs = r["H"]
+    approx = bool(case.get("approx"))
     res["nontrivial"] = dim >= 2 and any(sum(n) >= 2 and not gq.is_zero(M) for n, M in Ht.d.items())
     states, Ed = rs_states(case)
     for scales in scales_list:
@@ -253,7 +269,7 @@ def eval_case(case, scales_list, want_detail=False):
         PT = substituted(Ht.d, dim, scales, N)
         cH = charpoly_trunc(PH, N)
         cT = charpoly_trunc(PT, N)
-        bad = [(k, m) for k in range(dim + 1) for m in range(N + 1) if cH[k][m] != cT[k][m]]
+        bad = [(k, m) for k in range(dim + 1) for m in range(N + 1) if not same(cH[k][m], cT[k][m], cH[k], approx)]
         if bad:
             k, m = bad[0]
             res["failures"].append(dict(
@@ -282,12 +298,13 @@ def eval_case(case, scales_list, want_detail=False):
                 msgs = []
                 if offd:
                     msgs.append("state is not decoupled in H_tilde (non-zero entries to %s)" % offd)
-                if diag[0] != Ed[i]:
+                ref = [Ed[i]] + [rec[n] for n in range(1, N + 1)]
+                if not same(diag[0], Ed[i], ref, approx):
                     msgs.append("order 0: %s != E_i" % (diag[0],))
                 for n in range(1, N + 1):
                     if n in clo and clo[n] != rec[n]:
                         msgs.append("INTERNAL: closed RS formula and RS recursion disagree at order %d" % n)
-                    if diag[n] != rec[n]:
+                    if not same(diag[n], rec[n], ref, approx):
                         msgs.append("order %d: H_tilde diagonal %s, Rayleigh-Schroedinger %s" % (n, diag[n], rec[n]))
                 if msgs:
                     res["failures"].append(dict(
@@ -362,16 +379,126 @@ def focused_case(rng, N, focus, accept=None, **kw):
     raise RuntimeError("generator could not produce a case with focus %r" % focus)
 
 
+def is_unsorted_degenerate(case):
+    """numerical format, some fully diagonalised block (list form / default) has a degenerate level and a sort
+    permutation with a cycle of length >= 3"""
+    if case["fmt"] == "sympy" or isinstance(case["fully"], dict):
+        return False
+    sub = case["sub"]
+    nb = max(sub) + 1
+    f = case["fully"]
+    blocks = ([0] if nb == 1 else []) if f is None else f
+    E0 = gq.dec(case["H"][gen.key((0,) * case["nparam"])])
+    for b in blocks:
+        vals = [E0[i][i].re for i in range(len(sub)) if sub[i] == b]
+        if len(set(vals)) < len(vals) and _long_cycle(vals):
+            return True
+    return False
+
+
+def _long_cycle(vals):
+    """the (stable) sort permutation of vals is not an involution, i.e. has a cycle of length >= 3"""
+    order = sorted(range(len(vals)), key=lambda k: (vals[k], k))
+    return any(order[order[k]] != k for k in range(len(vals)))
+
+
+def unsorted_degenerate_case(rng, N, family, cplx=None, max_extra=3, max_params=2):
+    """Numerical H_0 (dense/sparse) given as an UNSORTED diagonal with a degenerate level inside a fully
+    diagonalised block (list form of fully_diagonalize, or the single-block default), such that the sort
+    permutation of the block's energies has a cycle of length >= 3 (e.g. diag(2, 0, 0, 1)).
+
+    family = "exact": exact-float (levels {0,1,2}, dyadic entries; compared exactly);
+    family = "float": generic decimal levels and entries (not representable in binary; case["approx"] = True,
+                      compared up to APPROX_TOL)."""
+    cplx = (rng.random() < 0.5) if cplx is None else cplx
+    if family == "exact":
+        levels = [Fr(0), Fr(1), Fr(2)]
+    else:
+        levels = [Fr(v, 10) for v in (-23, -11, 3, 9, 17, 26, 34)]
+    rng.shuffle(levels)
+    for _ in range(1000):
+        size = rng.choice([3, 3, 4]) if max_extra > 0 else 3
+        nlev = rng.randint(2, min(3, size - 1))
+        if family == "exact" and max_extra > 0 and rng.random() < 0.5:
+            nlev = 2  # leave a level for another block
+        mine = levels[:nlev]
+        vals = list(mine) + [rng.choice(mine) for _ in range(size - nlev)]
+        rng.shuffle(vals)
+        if _long_cycle(vals):
+            break
+    else:
+        raise RuntimeError("no unsorted degenerate arrangement found")
+    rest = levels[nlev:]
+    blocks = [vals]
+    extra_budget = max_extra
+    while rest and extra_budget > 0 and len(blocks) < 3 and rng.random() < 0.6:
+        lev = rest.pop()
+        sz = rng.randint(1, min(2, extra_budget))
+        other = [lev] * sz
+        if family != "exact" and sz == 2 and rest and rng.random() < 0.5:
+            other[1] = rest.pop()
+        blocks.append(other)
+        extra_budget -= sz
+    order = list(range(len(blocks)))
+    rng.shuffle(order)                       # which block index the degenerate block gets
+    blocks = [blocks[k] for k in order]
+    main = order.index(0)
+    nb = len(blocks)
+    sub = [b for b in range(nb) for _ in blocks[b]]
+    if rng.random() < 0.5:
+        rng.shuffle(sub)
+    it = [iter(b) for b in blocks]
+    E = [G(next(it[b])) for b in sub]
+    if nb == 1:
+        fully = None if rng.random() < 0.5 else [0]
+    else:
+        fully = sorted({main} | {b for b in range(nb) if rng.random() < 0.3})
+    nparam = rng.randint(1, max_params)
+    n = len(sub)
+
+    def mat(density):
+        if family == "exact":
+            return gen.rand_matrix(rng, n, herm=True, cplx=cplx, dyadic=True, density=density)
+        M = gq.zeros(n)
+        for i in range(n):
+            for j in range(i, n):
+                if rng.random() > density:
+                    continue
+                e = G(Fr(rng.randint(-9, 9), 10), Fr(rng.randint(-9, 9), 10) if (cplx and i != j) else 0)
+                M[i][j] = e
+                M[j][i] = e.conj()
+        return M
+
+    H = {gen.key((0,) * nparam): gq.enc(gen.diag_matrix(E))}
+    for o in gq.orders_upto(nparam, 2):
+        if sum(o) == 1:
+            H[gen.key(o)] = gq.enc(mat(1.0))
+        elif sum(o) == 2 and rng.random() < 0.25:
+            H[gen.key(o)] = gq.enc(mat(0.7))
+    case = dict(sub=sub, nparam=nparam, N=N, H=H, hermitian=True, fully=fully,
+                fmt=rng.choice(["dense", "sparse"]))
+    if family != "exact":
+        case["approx"] = True
+    return case
+
+
 def make_cases(rng, count, Ns, max_blocks=3, max_size=3, max_params=2, scales_per_case=2, full_scales=False):
-    """Every third case is a partial-mask case at N >= 3 (first place where the diagonal "Yadj" term matters)."""
+    """Per 10 cases: 4 general, 3 partial-mask cases at N >= 3 (first place where the diagonal "Yadj" term
+    matters), 3 unsorted-degenerate numerical H_0 cases (alternating exact-float / generic float)."""
     jobs = []
+    pattern = ["any", "partial-mask", "unsorted-degenerate", "any", "partial-mask",
+               "unsorted-degenerate", "any", "partial-mask", "unsorted-degenerate", "any"]
+    nud = 0
     for k in range(count):
         N = Ns[k % len(Ns)]
-        focus = "any"
-        if k % 3 == 2:
-            focus = "partial-mask"
-            N = max(N, 3)
-        case = focused_case(rng, N, focus, max_blocks=max_blocks, max_size=max_size, max_params=max_params)
+        focus = pattern[k % len(pattern)]
+        if focus == "unsorted-degenerate":
+            nud += 1
+            case = unsorted_degenerate_case(rng, min(N, 3), "exact" if nud % 2 else "float", max_params=max_params)
+        else:
+            if focus == "partial-mask":
+                N = max(N, 3)
+            case = focused_case(rng, N, focus, max_blocks=max_blocks, max_size=max_size, max_params=max_params)
         if case["nparam"] == 1:
             ns = 1  # another scale would only rescale x
         else:
@@ -402,6 +529,10 @@ def summarise(jobs, results, rule_extra=""):
             k = "%s=%s" % (key, s[key])
             dist[k] = dist.get(k, 0) + 1
         dist["N=%d" % case["N"]] = dist.get("N=%d" % case["N"], 0) + 1
+        if case.get("approx"):
+            dist["family=generic-float(toleranced)"] = dist.get("family=generic-float(toleranced)", 0) + 1
+        if is_unsorted_degenerate(case):
+            dist["unsorted-degenerate-H0"] = dist.get("unsorted-degenerate-H0", 0) + 1
         if r["nontrivial"]:
             seen.add(core.sha(core.canon(case)))
         failures += r["failures"]
@@ -416,7 +547,7 @@ def summarise(jobs, results, rule_extra=""):
 
 def oracle_charpoly(ctx):
     selftest()
-    count = ctx.n(36, 1400)
+    count = ctx.n(40, 1400)
     Ns = [2, 3] if ctx.quick else [2, 3, 3, 4]
     jobs = make_cases(ctx.rng, count, Ns, scales_per_case=2, full_scales=not ctx.quick)
     procs = min(16, os.cpu_count() or 1)
